@@ -68,17 +68,35 @@ def read_guard(ctx):
 G_FORCED = [0.0, 1e-8, -1e-8, 1e-4, -1e-4, 0.01, -0.01, 0.5, -1.0, 3.0, -10.0, 40.0, -100.0, 250.0,
             299.9, 300.0, 300.1, -299.9, -300.0, -300.1, -354.0, -356.0, 600.0, 1e3, -1e3, -1e4, -1e5, -1e6]
 H_FORCED = [0.5, 0.0, 0.2, 0.5 - 1e-9, 0.5 + 1e-9, 1.0]
-OVF = LN_DBL_MAX / 2        # |g| at which exp(-2g) overflows (module default; density_part uses the guard read from the source)
-TINY = 1e-5                      # below: 1 - exp(-2 g (1-x)) loses more than 1e-7 to cancellation in float64 (grids reach 1-x ~ 4e-4)
+TINY = 1e-5                 # below: 1 - exp(-2 g (1-x)) loses more than 1e-7 to cancellation in float64 (grids reach 1-x ~ 4e-4)
+
+class Findings:
+    """several failing inputs of one defect are reported as ONE violation (first input as replay, the others listed)"""
+    def __init__(self, ctx):
+        self.ctx = ctx; self.by = {}
+    def add(self, key, what, data):
+        self.by.setdefault(key, []).append((what, data))
+    def flush(self):
+        for key, items in self.by.items():
+            what, data = items[0]
+            if len(items) > 1:
+                what += '  [+%d more inputs of the same class]' % (len(items) - 1)
+                data = dict(data); data['other_inputs'] = [d.get('case') for _, d in items[1:20]]
+            self.ctx.violation(what, data=data, key=key)
+        self.by = {}
 
 def g_eff(c):
     return c['gamma'] * c['nu'] * 4 * c['beta'] / (c['beta'] + 1) ** 2
 
-def near_switch(g):
-    """effective coefficient within rounding distance of a branch point (only reachable when nu, beta make it inexact)"""
-    return any(abs(abs(g) - t) < 1e-6 * t for t in (300.0, OVF)) or (g != 0 and abs(g) < TINY)
+def in_window(g, guard):
+    """-2g so large that quad's own arithmetic overflows on exp(-Q) although the guard (Qadjust) is not yet active"""
+    return g < 0 and LN_DBL_MAX - 1.0 < -2 * g <= guard
 
-def gen_density(ctx):
+def near_switch(g, guard):
+    """effective coefficient within rounding distance of a branch point (only reachable when nu, beta make it inexact)"""
+    return any(abs(abs(g) - t) < 1e-6 * t for t in (300.0, guard / 2)) or (g != 0 and abs(g) < TINY) or in_window(g, guard)
+
+def gen_density(ctx, guard):
     rng = ctx.rng
     cases = []
     def add(gamma, h, nu=1.0, theta0=1.0, beta=1.0, grid=None, via=None):
@@ -101,6 +119,10 @@ def gen_density(ctx):
         for g in G_FORCED:
             for h in H_FORCED:
                 add(g, h)
+    # just above the overflow guard of the general-h path
+    for g in (-354.8, -354.6):
+        for h in (0.0, 0.3, 1.0):
+            add(g, h, grid=12)
     # random parameters (nu, theta0, beta included), gamma log-uniform in magnitude
     nrand = ctx.pick(60, 2000) - len(cases)
     k = 0
@@ -117,7 +139,7 @@ def gen_density(ctx):
         h = rng.choice([0.5, 0.5, 0.0, 1.0, lib.dyadic(rng, 0, 1, 6), lib.dyadic(rng, 0, 1, 6)])
         c = {'gamma': gamma, 'nu': nu, 'beta': beta}
         ge = g_eff(c)
-        if near_switch(ge) or abs(ge) > 1.2e6:
+        if near_switch(ge, guard) or abs(ge) > 1.2e6:
             continue
         grid = None; via = None
         r = rng.random()
@@ -132,9 +154,9 @@ def gen_density(ctx):
         c['id'] = i
     return cases
 
-def coq_dens(c, xx, phi):
-    return '{| dn_xs := %s; dn_nu := %s; dn_theta0 := %s; dn_gamma := %s; dn_h := %s; dn_beta := %s; dn_impl := %s |}' % (
-        zzl(xx), q(c['nu']), q(c['theta0']), q(c['gamma']), q(c['h']), q(c['beta']), zzl(phi))
+def coq_dens(c, xx, phi, guard):
+    return '{| dn_ovf := %s; dn_xs := %s; dn_nu := %s; dn_theta0 := %s; dn_gamma := %s; dn_h := %s; dn_beta := %s; dn_impl := %s |}' % (
+        q(Fraction(repr(guard))), zzl(xx), q(c['nu']), q(c['theta0']), q(c['gamma']), q(c['h']), q(c['beta']), zzl(phi))
 
 def snm_ref(xx, c):
     bf = 4 * c['beta'] / (c['beta'] + 1) ** 2
@@ -143,8 +165,11 @@ def snm_ref(xx, c):
         v[0] = v[1]
     return v
 
-def density_part(ctx):
-    cases = gen_density(ctx)
+def pdesc(c):
+    return 'gamma=%r h=%r nu=%r theta0=%r beta=%r' % (c['gamma'], c['h'], c['nu'], c['theta0'], c['beta'])
+
+def density_part(ctx, guard, fnd):
+    cases = gen_density(ctx, guard)
     if ctx.replay:
         rp = json.load(open(ctx.replay))
         if rp.get('input') and rp['input'].get('case', {}).get('kind') == 'dens':
@@ -157,33 +182,37 @@ def density_part(ctx):
     for c in cases:
         r = byid[c['id']]
         ge = g_eff(c)
-        regime = ('g=0' if ge == 0 else 'tiny' if abs(ge) < 1e-3 else 'g<=-ovf' if ge < -OVF else 'g<=-300' if ge <= -300 else
-                  'g>=300' if ge >= 300 else 'neg' if ge < 0 else 'pos')
+        regime = ('g=0' if ge == 0 else 'tiny' if abs(ge) < 1e-3 else 'g<-guard' if -2 * ge > guard else 'guard window' if in_window(ge, guard) else
+                  'g<=-300' if ge <= -300 else 'g>=300' if ge >= 300 else 'neg' if ge < 0 else 'pos')
         ctx.count('dens %s %s' % ('h=.5' if c['h'] == 0.5 else 'h~.5' if abs(c['h'] - 0.5) < 1e-6 else 'h general', regime))
         if 'error' in r:
             ctx.obligation('dens case %d runs' % c['id'], False, 'correspondence', r['error'])
-            ctx.violation('phi_1D raised %s (gamma=%r h=%r nu=%r beta=%r)' % (r['error'], c['gamma'], c['h'], c['nu'], c['beta']), data={'case': c, 'impl': r})
+            ctx.violation('phi_1D raised %s (%s)' % (r['error'], pdesc(c)), data={'case': c, 'impl': r})
             continue
         phi = r['phi']; xx = r['xx']
         ctx.case(signature=None if c['gamma'] == 0 else ('dens', json.dumps(c, sort_keys=True)),
                  sample={'case': c, 'phi_head': phi[:3], 'phi_tail': phi[-3:]} if c['id'] % 23 == 0 else None)
         # finiteness / non-negativity on the implementation (property clause)
         bad = [i for i, v in enumerate(phi) if isinstance(v, str)]
+        ctx.obligation('dens case %d finite and non-negative: %s' % (c['id'], pdesc(c)), not bad and min(phi) >= 0, 'predicate',
+                       '' if not bad else 'entry %d is %s' % (bad[0], phi[bad[0]]))
         if bad:
-            ctx.violation('phi_1D returned a non-finite density entry %s at index %d (gamma=%r h=%r nu=%r beta=%r)' % (phi[bad[0]], bad[0], c['gamma'], c['h'], c['nu'], c['beta']),
-                          data={'case': c, 'impl': r})
+            key = KEY_WINDOW if (c['h'] != 0.5 and in_window(ge, guard)) else None
+            ctx.obligations[-1]['known_key'] = key
+            fnd.add(key or ('nonfinite', c['id']), 'phi_1D returns a non-finite density (entry %d is %s) for %s%s' % (
+                bad[0], phi[bad[0]], pdesc(c), ': exp(-2*gamma) is still finite, so Qadjust is not applied, but the quadrature overflows' if key else ''),
+                {'case': c, 'impl': r})
             continue
         if min(phi) < 0:
-            ctx.violation('phi_1D returned a negative density entry %r (gamma=%r h=%r nu=%r beta=%r)' % (min(phi), c['gamma'], c['h'], c['nu'], c['beta']), data={'case': c, 'impl': r})
-        n = len(exprs)
-        exprs.append((c['id'], coq_dens(c, xx, phi)))
+            ctx.violation('phi_1D returned a negative density entry %r (%s)' % (min(phi), pdesc(c)), data={'case': c, 'impl': r})
+        exprs.append((c['id'], coq_dens(c, xx, phi, guard)))
         meta[c['id']] = (c, r)
     results = ctx.coq_cases('dens', HEADER, exprs, '(dens_check 30 1 %s)' % q(TOL_DENS), 'rel 1e-7 per entry (abs floor 1e-301)', shard=ctx.pick(4, 40), timeout=2400)
     nbad = 0
     for cid, (c, r) in meta.items():
         rr = results.get(cid)
         ok = rr is not None and rr[0]
-        ctx.obligation('dens case %d: gamma=%r h=%r nu=%r beta=%r' % (cid, c['gamma'], c['h'], c['nu'], c['beta']), ok, 'correspondence', '' if ok else 'coq %r' % (rr,))
+        ctx.obligation('dens case %d = closed-form model: %s' % (cid, pdesc(c)), ok, 'correspondence', '' if ok else 'coq %r' % (rr,))
         if not ok:
             tiny = c['h'] == 0.5 and 0 < abs(g_eff(c)) < TINY
             if tiny:
@@ -191,18 +220,16 @@ def density_part(ctx):
                 ctx.obligations[-1]['known_key'] = KEY_TINY
                 ref = snm_ref(r['xx'], c)
                 dev = max(abs(a - bb) / bb for a, bb in zip(r['phi'][1:-1], ref[1:-1]))
-                ctx.violation('phi_1D_genic loses accuracy to cancellation near gamma = 0: gamma=%r gives entries %.3g (relative) away from the neutral density, exact theory says <= %.1g' % (
-                    c['gamma'], dev, 3 * abs(g_eff(c))), data={'case': c, 'impl': r, 'coq': rr}, key=KEY_TINY)
+                fnd.add(KEY_TINY, 'phi_1D_genic loses accuracy to cancellation near gamma = 0: gamma=%r gives entries %.3g (relative) away from the neutral density, exact theory says <= %.1g' % (
+                    c['gamma'], dev, 3 * abs(g_eff(c))), {'case': c, 'impl': r, 'coq': rr})
                 continue
             nbad += 1
             if nbad <= 3:
-                ctx.violation('phi_1D differs from the closed-form equilibrium density (model) beyond 1e-7: gamma=%r h=%r nu=%r theta0=%r beta=%r (log2 rel err %r)' % (
-                    c['gamma'], c['h'], c['nu'], c['theta0'], c['beta'], rr), data={'case': c, 'impl': r, 'coq': rr})
-    return cases, byid
+                ctx.violation('phi_1D differs from the closed-form equilibrium density (model) beyond 1e-7: %s (log2 rel err %r)' % (pdesc(c), rr),
+                              data={'case': c, 'impl': r, 'coq': rr})
 
-def continuity_part(ctx):
+def continuity_part(ctx, guard, fnd):
     """continuity across the switches, evaluated on the implementation alone (pairs straddling each switch)"""
-    rng = ctx.rng
     probes = []
     def pair(tag, a, bb, scale_tol, key=None):
         probes.append((tag, a, bb, scale_tol, key))
@@ -212,14 +239,15 @@ def continuity_part(ctx):
         pair('gamma0', dict(base, gamma=g, h=0.5), dict(base, gamma=0.0, h=0.5), 3 * abs(g) + 2e-7)
     for g in [1e-3, -1e-5, 1e-8, -1e-8, 1e-12]:
         pair('gamma0', dict(base, gamma=g, h=0.2), dict(base, gamma=0.0, h=0.2), 3 * abs(g) + 2e-7)
-    # far below: float cancellation region of the genic closed form
+    # far below: float cancellation region of the genic closed form (normal floats only; denormal gamma is not probed)
     for g in [1e-7, -1e-8, 1e-9, -1e-10, 1e-12, -1e-14, 1e-16, -1e-17, 1e-100, -1e-300]:
         pair('gamma0-tiny', dict(base, gamma=g, h=0.5), dict(base, gamma=0.0, h=0.5), 2e-6, KEY_TINY)
     # |gamma| = 300 guards and the overflow guard of the general-h path; h = 0.5 switch
     for h in [0.5, 0.0, 0.3, 1.0]:
-        for g0 in [-300.0, 300.0] + ([-354.891356446692] if h != 0.5 else []):
+        for g0 in [-300.0, 300.0] + ([-guard / 2] if h != 0.5 else []):
             d = abs(g0) * 2.0 ** -40
-            pair('guard%g' % g0, dict(base, gamma=g0 - d, h=h), dict(base, gamma=g0 + d, h=h), 1e-9)
+            pair('guard%g' % g0, dict(base, gamma=g0 - d, h=h), dict(base, gamma=g0 + d, h=h), 1e-9,
+                 KEY_WINDOW if (h != 0.5 and in_window(g0 + d, guard)) else None)
     for g in [-1e6, -1e4, -400.0, -300.0, -299.0, -30.0, -1.0, 1e-3, 2.0, 50.0, 299.0, 300.0, 1e3]:
         pair('h=.5', dict(base, gamma=g, h=0.5 - 1e-9), dict(base, gamma=g, h=0.5), 1e-6)
         pair('h=.5', dict(base, gamma=g, h=0.5 + 1e-9), dict(base, gamma=g, h=0.5), 1e-6)
@@ -249,11 +277,14 @@ def continuity_part(ctx):
         ctx.obligation(name, ok, 'predicate', 'dev %.3g tol %.3g' % (dev, tol), )
         ctx.case(signature=('cont', tag, a['gamma'], a['h']))
         if not ok:
+            ctx.obligations[-1]['known_key'] = key
+            what = 'equilibrium density jumps across the %s switch: phi_1D(gamma=%r, h=%r) vs phi_1D(gamma=%r, h=%r) differ by %.3g relative%s' % (
+                tag, a['gamma'], a['h'], bb['gamma'], bb['h'], dev, ' (non-finite entries)' if nonfin else '')
+            data = {'case': a, 'other': bb, 'phi': pa, 'phi_other': pb}
             if key:
-                ctx.obligations[-1]['known_key'] = key
-            ctx.violation('equilibrium density jumps across the %s switch: phi_1D(gamma=%r, h=%r) vs phi_1D(gamma=%r, h=%r) differ by %.3g relative%s' % (
-                tag, a['gamma'], a['h'], bb['gamma'], bb['h'], dev, ' (non-finite entries)' if nonfin else ''),
-                data={'case': a, 'other': bb, 'phi': pa, 'phi_other': pb}, key=key)
+                fnd.add(key, what, data)
+            else:
+                ctx.violation(what, data=data)
 
 # ------------------------------------------------------------------------------------------------
 # (ii) numerical half
@@ -524,10 +555,13 @@ def run(ctx):
                     'the coalescent formulas of Model/Coalescent.v (Tavare lineage-count probabilities, Fu branch-size probabilities): independent oracle, validated by '
                     'coal_const_is_theta_over_i (all n <= 30) and by the agreement with the implementation itself under refinement']
     only = os.environ.get('C01_ONLY', '')
+    guard = read_guard(ctx)
+    fnd = Findings(ctx)
     if not only or 'dens' in only:
-        density_part(ctx)
+        density_part(ctx, guard, fnd)
         if not ctx.replay:
-            continuity_part(ctx)
+            continuity_part(ctx, guard, fnd)
+        fnd.flush()
     if not only or 'stat' in only:
         stationarity_part(ctx)
     if not only or 'hist' in only:
